@@ -230,7 +230,6 @@ def ob_stop_all_for_address(vc):
     timer cancelled and its expiry callback called exactly once, immediately; entries of
     other addresses are untouched; nothing is deferred"""
     w = World(vc)
-    vc.arm_cut(SD.TimedStore.stop_all_for_address, 0)
     o = vc.outcome(vc.body(SD.TimedStore.stop_all_for_address), w.ts, w.A)
     vc.check(o.kind != "raise", "stop_all_for_address.never_raises")
     vc.check(not w.present(w.A, w.k0) and not w.present(w.A, w.k1), "stop_all_for_address.address_emptied")
@@ -258,7 +257,6 @@ def ob_stop_all(vc):
     """stop_all(): for an arbitrary address, exactly stop_all_for_address; afterwards the
     store is empty"""
     w = World(vc)
-    vc.arm_cut(SD.TimedStore.stop_all, 0)
     o = vc.outcome(vc.body(SD.TimedStore.stop_all), w.ts)
     vc.check(o.kind != "raise", "stop_all.never_raises")
     vc.check_eq(len(w.loop.ready), 0, "stop_all.defers_nothing")
